@@ -21,14 +21,25 @@ def exception_classes(tree, what, rep):
         if not any(isinstance(b, ast.Name) and b.id == 'InputError' for b in c.bases):
             rep.add(Finding('EXC-classes', f'{name}', 'base', f'{what}: {name} no longer derives from InputError',
                             'sourcer/translator.py (runtime classes)'))
-    pe = cs['PartialParseError']
-    src = ast.unparse(pe)
-    for needle in ('self.partial_result = partial_result', 'self.last_position = last_position'):
-        if needle not in src:
-            rep.add(Finding('EXC-classes', 'PartialParseError', needle.split(' ')[0],
-                            f'{what}: PartialParseError does not store `{needle}`', 'sourcer/translator.py'))
-    p = ast.unparse(cs['ParseError'])
-    if 'self.position = _Position(index, line, column)' not in p:
+    from .. import paths as P
+
+    def stores_of(cname):
+        init = next(m for m in cs[cname].body if isinstance(m, ast.FunctionDef) and m.name == '__init__')
+        out = {}
+        for p in P.Enumerator().function(init):
+            for e in p.events('attrstore'):
+                if e[2][1] == ('PARAM', 'self'):
+                    out.setdefault(e[2][2], set()).add(e[3])
+        return out
+    st = stores_of('PartialParseError')
+    for attr in ('partial_result', 'last_position'):
+        if st.get(attr) != {('PARAM', attr)}:
+            rep.add(Finding('EXC-classes', 'PartialParseError', attr,
+                            f'{what}: PartialParseError.{attr} is not the constructor argument of that name',
+                            'sourcer/translator.py'))
+    st = stores_of('ParseError')
+    want = ('CALL', ('VAR', '_Position'), ('PARAM', 'index'), ('PARAM', 'line'), ('PARAM', 'column'))
+    if st.get('position') != {want}:
         rep.add(Finding('EXC-classes', 'ParseError', 'position', f'{what}: ParseError.position is not '
                         f'_Position(index, line, column)', 'sourcer/translator.py'))
 
